@@ -55,22 +55,35 @@ theorem llt_of_lt_of_le {a b c : List Nat} (h1 : a < b) (h2 : b ≤ c) : a < c :
 theorem snoc_zero_le_iff (t x : List Nat) : t ++ [0] ≤ x ↔ t < x :=
   ⟨fun h => llt_of_lt_of_le (lt_snoc_zero t) h, snoc_zero_le_of_lt t x⟩
 
-/-- A string of real characters: every code point is at most U+10FFFF (`sys.maxunicode`). -/
-def Valid (t : List Nat) : Prop := ∀ c, c ∈ t → c ≤ maxCodePoint
+/-- A real character: a Unicode scalar value - at most U+10FFFF (`sys.maxunicode`) and not a
+    surrogate (UTF-8, the encoding of the term dictionary, cannot express U+D800..U+DFFF). -/
+def Scalar (c : Nat) : Prop := c ≤ maxCodePoint ∧ (c < 0xD800 ∨ 0xDFFF < c)
+
+theorem scalar_iff (c : Nat) : Scalar c ↔ isScalar c = true := by
+  simp only [Scalar, isScalar, Bool.and_eq_true, decide_eq_true_eq, Bool.not_eq_true',
+    Bool.and_eq_false_iff, decide_eq_false_iff_not]
+  omega
+
+instance (c : Nat) : Decidable (Scalar c) := by unfold Scalar; infer_instance
+
+/-- A string of real characters: every code point is a scalar value. -/
+def Valid (t : List Nat) : Prop := ∀ c, c ∈ t → Scalar c
 
 theorem valid_snoc_zero {t : List Nat} (h : Valid t) : Valid (t ++ [0]) := by
   intro c hc
   rcases List.mem_append.mp hc with h1 | h1
   · exact h c h1
   · have : c = 0 := by simpa using h1
-    subst this; exact Nat.zero_le _
+    subst this; exact ⟨Nat.zero_le _, Or.inl (by omega)⟩
 
 /-- `nv` is a correct `next_valid_string` for the acceptance predicate `acc`: on every string (of
     real characters) it returns the least accepted string (of real characters) at or after its
-    argument, `None` when there is none - and never fails. -/
+    argument, `None` when there is none - and never fails.  That the returned string consists of
+    real characters matters to the byte-level cursor (`cur.find(match)` encodes it as UTF-8). -/
 def NextValidSpec (acc : List Nat → Bool) (nv : List Nat → Except Err (Option (List Nat))) : Prop :=
   ∀ s, Valid s → (nv s = .ok none ∧ ∀ t, Valid t → s ≤ t → acc t = false) ∨
-    (∃ m, nv s = .ok (some m) ∧ acc m = true ∧ s ≤ m ∧ ∀ t, Valid t → s ≤ t → acc t = true → m ≤ t)
+    (∃ m, nv s = .ok (some m) ∧ acc m = true ∧ s ≤ m ∧ (∀ t, Valid t → s ≤ t → acc t = true → m ≤ t) ∧
+      Valid m)
 
 /-- A lexicon: strictly ascending in Python string order. -/
 def SortedLex (lex : List (List Nat)) : Prop := lex.Pairwise (· < ·)
@@ -251,7 +264,7 @@ theorem findLoop_spec (acc : List Nat → Bool) (nv : List Nat → Except Err (O
   | zero => intro s r _ _ h; omega
   | succ fuel ih =>
     intro s r hvs hr hpot
-    rcases hnv s hvs with ⟨hnone, hno⟩ | ⟨m, hsome, hacc, hsm, hmin⟩
+    rcases hnv s hvs with ⟨hnone, hno⟩ | ⟨m, hsome, hacc, hsm, hmin, _⟩
     · -- no accepted string at or after s
       rw [hr] at hnone
       simp only [Except.ok.injEq] at hnone
